@@ -163,12 +163,25 @@ theorem sat_newAESCBCAEAD (p : AEADParams) (key : Slice) :
 
 macro_rules | `(tactic| sat_rule) => `(tactic| with_reducible exact sat_newAESCBCAEAD _ _)
 
-theorem sat_hmacTag (env : Env) (a : CbcAead) (ad : Slice) :
-    Sat n W (hmacTag env a ad) (fun r => n ≤ r.arr) := by
+theorem sat_touch (xs : List Slice) : Sat n W (touch xs) (fun _ => True) := by
+  unfold touch
+  refine sat_loop _ _ fun x _ => ?_
+  sat_auto
+
+macro_rules | `(tactic| sat_rule) => `(tactic| with_reducible exact sat_touch _)
+
+theorem sat_discard {m : M α} {Q : α → Prop} (hm : Sat n W m Q) : Sat n W (discard m) (fun _ => True) := by
+  unfold discard
+  exact sat_bind hm fun _ _ => sat_pure trivial
+
+macro_rules | `(tactic| sat_rule) => `(tactic| (with_reducible (show Sat _ _ (discard _) _); exact sat_discard (by sat_rule)))
+
+theorem sat_hmacTag (env : Env) (a : CbcAead) (ad nonce ct : Slice) :
+    Sat n W (hmacTag env a ad nonce ct) (fun r => n ≤ r.arr) := by
   unfold hmacTag
   sat_auto
 
-macro_rules | `(tactic| sat_rule) => `(tactic| with_reducible exact sat_hmacTag _ _ _)
+macro_rules | `(tactic| sat_rule) => `(tactic| with_reducible exact sat_hmacTag _ _ _ _ _)
 
 theorem sat_growDst (dst : Slice) (size : Nat) :
     Sat n W (growDst dst size)
@@ -214,7 +227,7 @@ theorem sat_cbcSeal (env : Env) (a : CbcAead) (dst nonce plaintext ad : Slice)
   refine sat_bind (sat_reslice out 0 _) fun body hb => ?_
   refine sat_bind (sat_cryptBlocks env body padded
     (wr_out hW hd.2.2 (by omega) (by omega) (by omega))) fun _ _ => ?_
-  refine sat_bind (sat_hmacTag env a ad) fun tag _ => ?_
+  refine sat_bind (sat_hmacTag env a ad _ _) fun tag _ => ?_
   refine sat_bind (sat_resliceFrom out _) fun tl ht => ?_
   refine sat_bind (sat_copyS tl tag
     (wr_out hW hd.2.2 (by omega) (by omega) (by omega))) fun _ _ => ?_
@@ -227,9 +240,10 @@ theorem sat_cbcOpen (env : Env) (a : CbcAead) (dst nonce ciphertext ad : Slice)
     Sat n W (cbcOpen env a dst nonce ciphertext ad) (fun _ => True) := by
   unfold cbcOpen
   refine sat_bind (sat_failIf _ _) fun _ _ => ?_
+  refine sat_bind (sat_failIf _ _) fun _ _ => ?_
   refine sat_bind (sat_resliceFrom _ _) fun _ _ => ?_
   refine sat_bind (sat_reslice ciphertext 0 _) fun body hb => ?_
-  refine sat_bind (sat_hmacTag env a ad) fun _ _ => ?_
+  refine sat_bind (sat_hmacTag env a ad _ _) fun _ _ => ?_
   refine sat_bind (sat_failIf _ _) fun _ _ => ?_
   refine sat_bind (sat_failIf _ _) fun _ _ => ?_
   have hlen : body.len = ciphertext.len - a.p.tagSize := by omega
@@ -583,6 +597,23 @@ theorem frames_of_sat {m : M α} {rs : List (Nat × Nat × Nat)}
 theorem readOnly_of_frames {m : M α} (hf : Frames [] m) : ReadOnly m := by
   intro h a ha
   exact (hf h).getElem?_eq (Nat.le_refl _) a ha (fun i hi => by simp [InRanges] at hi)
+
+theorem Frames.mono {m : M α} {rs rs' : List (Nat × Nat × Nat)} (hm : Frames rs m)
+    (h : ∀ a i, InRanges rs a i → InRanges rs' a i) : Frames rs' m := by
+  intro hp
+  have e := hm hp
+  exact ⟨e.1, fun a ha => ⟨(e.2 a ha).1, fun i hi => (e.2 a ha).2 i (fun hw => hi (h a i hw))⟩⟩
+
+theorem discard_heap (m : M α) (h : Heap) : (discard m h).2 = (m h).2 := by
+  show (M.bind m (fun _ => pure ()) h).2 = _
+  unfold M.bind
+  rcases hm : m h with ⟨o, h'⟩
+  cases o <;> rfl
+
+theorem Frames.discard {m : M α} {rs : List (Nat × Nat × Nat)} (hm : Frames rs m) :
+    Frames rs (discard m) := fun h => by
+  rw [discard_heap]
+  exact hm h
 
 theorem sat_true {m : M α} {Q : α → Prop} (hm : Sat n W m Q) : Sat n W m (fun _ => True) :=
   sat_mono hm fun _ _ => trivial
